@@ -14,7 +14,7 @@ Series(label, x, y) == [label |-> label, x |-> x, y |-> y]
 QS(s) == [k \in DOMAIN s |-> Q(s[k])]
 Pooled(X, i) == PairsOf(X, i, "no", 1)
 \* x-axis value of slice k: dates as day numbers (plotting date numbers), everything else the slice key
-AxisX(X, axis, k) == LET key == SliceKeys(X, axis)[k] IN IF axis \in {"time", "year", "month", "week", "day"} THEN Frac(key, 86400) ELSE R(key)
+AxisX(X, axis, k) == LET key == SliceKeys(X, axis)[k] IN IF axis \in {"time", "year", "month", "week", "day"} THEN Frac(key, 86400) ELSE IF axis = "timeofday" THEN Frac(key, 3600) ELSE R(key)
 
 \* ---- standard plot of a metric along an axis: y = the score of every slice; `-x no`: one bar per input ----
 StandardSeries(X, m, axis, cfg) ==
